@@ -13,6 +13,7 @@ import (
 	"encoding/json"
 	"errors"
 	"fmt"
+	"io"
 	"net/http/httptest"
 	"net/url"
 	"reflect"
@@ -624,8 +625,10 @@ func gen(tier string, seed uint64) []runner.Scenario {
 			for i := 0; i+8 <= len(big); i += 8 {
 				binary.LittleEndian.PutUint64(big[i:], r.Next())
 			}
-			for _, n := range []int{limit - 1, limit, limit + 1, limit + (1 << 20)} {
-				// request of n (encoded) bytes
+			for ni, n := range []int{limit - 1, limit, limit + 1, limit + (1 << 20), limit - 1, limit, limit + 1, limit + (1 << 20)} {
+				// request of n (encoded) bytes; the second round sends it without a declared length
+				// (chunked upload: Request.ContentLength is -1)
+				unknownLength := ni >= 4
 				reqMsg := big[:n]
 				var body []byte
 				if isJSON(ct) {
@@ -636,6 +639,13 @@ func gen(tier string, seed uint64) []runner.Scenario {
 				body = buildRequest(ct, reqMsg)
 				s := &script{recv: true, sends: [][]byte{[]byte("ok")}}
 				req := httptest.NewRequest("POST", "/svc/M", bytes.NewReader(body))
+				if unknownLength {
+					req = httptest.NewRequest("POST", "/svc/M", struct{ io.Reader }{bytes.NewReader(body)})
+					if req.ContentLength != -1 {
+						a.fail("harness", "request without a declared length has ContentLength %d", req.ContentLength)
+					}
+					a.stats["requests_without_declared_length"]++
+				}
 				if ct != "" {
 					req.Header.Set("Content-Type", ct)
 				}
